@@ -135,6 +135,12 @@ def setup(ctx):
         plat_ok = spec.platform is None or any(p == "any" or p in spec.platform.compatible_tags for p in plats)
         if not plat_ok:
             return
+        if ctx.rnd.random() < 0.1:
+            again = spec.compatibility(pts, abis, plats)  # same call again on the same object: no hidden state
+            if again != r:
+                violation(PROP, "EnvSpec.compatibility", "the same call repeated on the same spec gives a different score",
+                          {"requires_python": str(rp), "implementation": short, "python_tags": pts, "abi_tags": abis,
+                           "first": r, "second": again, "group": "repeat"})
         got3 = None if r is None else tuple(r[:3])
         if got3 != best:
             violation(PROP, "EnvSpec.compatibility", "python/abi part of the score differs from the best pair",
@@ -176,7 +182,7 @@ def run(ctx):
             continue
         ctx.cases += 1
         ctx.current_case = {"kind": "grid", "requires_python": rp, "impl": impl}
-        pts = PYTAGS if full else [p for p in PYTAGS if rnd.random() < 0.45]
+        pts = PYTAGS if full else [p for p in PYTAGS if rnd.random() < 0.33]
         for pt in pts:
             for abi in abis:
                 if not full and abi not in ("none", "abi3") and rnd.random() < 0.5 and abi[2:4] != pt[2:4]:
